@@ -7,6 +7,7 @@ import (
 	"strings"
 
 	"github.com/EliCDavis/polyform/modeling"
+	"github.com/EliCDavis/polyform/modeling/primitives"
 
 	"verif/internal/choice"
 	"verif/internal/detsched"
@@ -73,6 +74,7 @@ func (Sequential) Run(c choice.Chooser, opt sim.Options) (res sim.Result) {
 		res.Sig = fmt.Sprintf("%016x", choice.Hash64(strings.Join(hist, ";")))
 		return res
 	}
+	cubeBefore := meshsnap.Take(primitives.UnitCube())
 	var pool []*slot
 	add := func(m modeling.Mesh, label string, appended bool) int {
 		s := &slot{mesh: m, snap: meshsnap.Take(m), label: label, appended: appended}
@@ -166,6 +168,11 @@ func (Sequential) Run(c choice.Chooser, opt sim.Options) (res sim.Result) {
 		if branching > 0 {
 			rereads++
 		}
+	}
+	// package-level tables behind the primitives: a cube built now must be
+	// the cube built before the history ran
+	if d := meshsnap.Diff(cubeBefore, meshsnap.Take(primitives.UnitCube())); d != "" {
+		return violate("primitive-table-changed", "primitives.UnitCube() yields a different mesh after the history than before it: "+d)
 	}
 	for k, v := range counts {
 		res.Count(k, v)
